@@ -369,6 +369,9 @@ func (x *Explorer) runPath(solver *smt.Solver, script []int) (res *PathResult) {
 	res.Funcs = in.funcs
 	if x.Trace {
 		fmt.Fprintf(os.Stderr, "path %s -> %s %s (alts %d, obl %d)\n", scriptString(res.Script), res.Status, clip(res.Msg, 300), len(res.Alts), res.Obl)
+		for _, o := range res.Observed {
+			fmt.Fprintf(os.Stderr, "    observed %s\n", clip(o, 300))
+		}
 	}
 	return res
 }
